@@ -71,3 +71,12 @@ CHECKS["C02"] = dict(
 CHECKS["C06"] = dict(
     text="Exact per-action contract for what apply records, winner/loser rule of divergent edits (greater BLAKE3 at the path, loser at the conflict-copy name, both sides), record-names-only-live-paths invariant of run_bisync; convergence/idempotence as whole-tree equality is exercised by the history twin only.",
     note=_BISYNC_NOTE, technique="Verus contracts against a ghost file-system world", design_ref="DESIGN.md §3 C02/C06/C07/C08")
+_SERVE_NOTE = "Trusted: Verus+Z3 / Kani+CBMC, extractor rules, ghost world with commit lock and process-private staging names, fs2 flock as mutual exclusion, std::path component grammar behind safe_join (assumed, validated), ciborium by contract. Interleavings are not explored by a verifier: the lock-discipline contracts plus the standard linearizability argument; the session twin forces named schedules on the real binary."
+CHECKS["C03"] = dict(text="cas_decide proved complete by Kani on the unedited wire.rs; atomic-section contracts of handle_put / handle_delete against a ghost world with a commit lock (compare and commit under one lock, acknowledged only if the rename happened); deterministic two-server sessions on the real binary as witnesses.",
+                     note=_SERVE_NOTE, technique="Kani harness + Verus contracts against a ghost world with lock/ownership; session twin", design_ref="DESIGN.md §3 C03/C10/C11/C12")
+CHECKS["C10"] = dict(text="Verus contracts: a live hub path only ever receives the rename of a fully written, flushed, hash-verified, process-private staging file; hash mismatch changes no live path; Get takes length, hash and content from one open file. Session twin with forced interleavings on the real binary.",
+                     note=_SERVE_NOTE, technique="Verus contracts against a ghost world with lock/ownership; session twin", design_ref="DESIGN.md §3 C03/C10/C11/C12")
+CHECKS["C11"] = dict(text="Verus contract of safe_join over an assumed std::path component grammar (Some only for relative paths without '..', result = root joined with the request path) and 'every file-system primitive gets a path derived from safe_join's result'; refused request changes nothing and drains its content. Session twin with escape attempts on the real binary.",
+                     note=_SERVE_NOTE, technique="Verus contracts (confinement precondition on every world primitive); session twin", design_ref="DESIGN.md §3 C03/C10/C11/C12")
+CHECKS["C12"] = dict(text="Verus contracts of read_magic / read_frame / write_frame (total, allocation only after the 1 MiB bound check, clean EOF at a boundary is None) and of serve's prologue (no tree effect before magic and a well-formed frame); session twin with bad prologue, oversize prefixes, cut input, refused Puts of many sizes.",
+                     note=_SERVE_NOTE, technique="Verus contracts on extracted wire/serve text; session twin", design_ref="DESIGN.md §3 C03/C10/C11/C12")
